@@ -10,6 +10,10 @@ package main
 // (2) a real engine.Engine over the same provider config with a counting mock gun; recorded: Engine.Run's
 // result, the number of shots, whether Engine.Wait returned.
 //
+// With -osdir every cell is run a second time on afero.OsFs (real files under that directory, one sub-directory and
+// child process per group; relative paths for a share of the cells); each child also logs its number of open
+// file descriptors before the first and after every cell.
+//
 // Hang rule: "no progress for -hang (default 5 s; normal: microseconds)" while Run has not returned or a
 // consumer is still inside Acquire makes the attempt blocked; the cell is re-run once and only then recorded
 // as blocked.  Cells run in child processes (one per provider kind x mode) so that abandoned, possibly
@@ -26,6 +30,7 @@ import (
 	"os"
 	"os/exec"
 	"sort"
+	"strings"
 	"sync"
 	"sync/atomic"
 	"time"
@@ -51,7 +56,14 @@ type apObs struct {
 	apCase
 	Shape   string `json:"shape"` // config map shape: "viper" (string keys) | "yaml" (interface keys)
 	Via     string `json:"via"`   // registration used: the kind's own type, or `type: http` + `decoder:`
+	Fs      string `json:"fs"`     // "mem" (afero.MemMapFs) | "os" (afero.OsFs, files in a scratch directory)
+	Layout  string `json:"layout"` // std | big | +nonl | +rel (see apLayout)
+	Fds0    int    `json:"fds0"`   // open file descriptors of the child before its first cell
+	Fds     int    `json:"fds"`    // ... after this cell
 	Skipped bool   `json:"skipped"`
+	lay     apLayout
+	dir     string
+	file    string
 	// direct run
 	BuildErr  string `json:"build_err"`
 	Count     int    `json:"count"`
@@ -109,12 +121,19 @@ func ammoprovMain(args []string) {
 	hang := fl.Duration("hang", 5*time.Second, "no-progress limit")
 	par := fl.Int("par", 4, "child processes in parallel")
 	maxBlocked := fl.Int("maxblocked", 2, "confirmed blocked cells per group before the rest is skipped")
+	osdir := fl.String("osdir", "", "if set: every cell is ALSO run on afero.OsFs with its files under this directory")
 	_ = fl.Parse(args)
 	all := apReadCases(*cases)
 	groups := map[string][]apCase{}
+	modes := []string{"mem"}
+	if *osdir != "" {
+		modes = append(modes, "os")
+	}
 	for _, c := range all {
-		k := fmt.Sprintf("%s-%v", c.Kind, c.Preload)
-		groups[k] = append(groups[k], c)
+		for _, m := range modes {
+			k := fmt.Sprintf("%s-%v-%s", c.Kind, c.Preload, m)
+			groups[k] = append(groups[k], c)
+		}
 	}
 	keys := []string{}
 	for k := range groups {
@@ -154,8 +173,12 @@ func ammoprovMain(args []string) {
 			limit := time.Duration(*maxBlocked*8+4)**hang + 180*time.Second
 			ctx, cancel := context.WithTimeout(context.Background(), limit)
 			defer cancel()
+			fsMode, fsDir := "mem", ""
+			if strings.HasSuffix(k, "-os") {
+				fsMode, fsDir = "os", *osdir+"/"+k
+			}
 			cmd := exec.CommandContext(ctx, self, "ammoprov-child", "-cases", in, "-out", dir+"/"+k+".out",
-				"-hang", hang.String(), "-maxblocked", fmt.Sprint(*maxBlocked))
+				"-hang", hang.String(), "-maxblocked", fmt.Sprint(*maxBlocked), "-fs", fsMode, "-dir", fsDir)
 			cmd.Stderr = os.Stderr
 			if err := cmd.Run(); err != nil {
 				fmt.Fprintf(os.Stderr, "ammoprov: child %s failed: %v\n", k, err)
@@ -187,8 +210,8 @@ func ammoprovMain(args []string) {
 	}
 	w.Flush()
 	o.Close()
-	if n != len(all) {
-		fmt.Fprintf(os.Stderr, "ammoprov: %d observations for %d cases\n", n, len(all))
+	if n != len(all)*len(modes) {
+		fmt.Fprintf(os.Stderr, "ammoprov: %d observations for %d cases\n", n, len(all)*len(modes))
 		os.Exit(3)
 	}
 }
@@ -208,9 +231,24 @@ func ammoprovChild(args []string) {
 	out := fl.String("out", "", "")
 	hang := fl.Duration("hang", 5*time.Second, "")
 	maxBlocked := fl.Int("maxblocked", 2, "")
+	fsMode := fl.String("fs", "mem", "")
+	fsDir := fl.String("dir", "", "")
 	_ = fl.Parse(args)
 
-	fs := afero.NewMemMapFs()
+	var fs afero.Fs = afero.NewMemMapFs()
+	dir := "/c08"
+	if *fsMode == "os" {
+		// what the pandora binary uses: real files (Close is not idempotent, descriptors are a resource,
+		// Seek/Read hit the kernel); the child works inside its own scratch directory
+		fs = afero.NewOsFs()
+		dir = *fsDir
+		if err := os.MkdirAll(dir, 0o755); err != nil {
+			panic(err)
+		}
+		if err := os.Chdir(dir); err != nil {
+			panic(err)
+		}
+	}
 	coreimport.Import(fs)
 	phttpimport.Import(fs)
 	grpcimport.Import(fs)
@@ -224,8 +262,13 @@ func ammoprovChild(args []string) {
 	}
 	w := bufio.NewWriter(o)
 	blocked := 0
+	fds0 := apOpenFds()
 	for _, c := range apReadCases(*cases) {
-		obs := apObs{apCase: c, Shape: "viper", Hist: make([]int, len(c.W))}
+		obs := apObs{apCase: c, Shape: "viper", Hist: make([]int, len(c.W)), Fs: *fsMode, Fds0: fds0, dir: dir}
+		// file layout variations, rotating with the seed
+		obs.lay = apLayout{NoFinalNL: (c.ID/3+seed)%4 == 0, Big: (c.ID/7+seed)%3 == 0 || len(c.W) >= 40,
+			Rel: *fsMode == "os" && (c.ID/5+seed)%2 == 0}
+		obs.Layout = obs.lay.String()
 		if (c.ID+seed)%2 == 1 {
 			obs.Shape = "yaml"
 		}
@@ -239,7 +282,8 @@ func ammoprovChild(args []string) {
 			apDirect(fs, &obs, *hang)
 			if obs.stuck() {
 				// hang rule: confirm once with a fresh provider
-				second := apObs{apCase: c, Shape: obs.Shape, Via: obs.Via, Hist: make([]int, len(c.W))}
+				second := apObs{apCase: c, Shape: obs.Shape, Via: obs.Via, Hist: make([]int, len(c.W)),
+					Fs: obs.Fs, Layout: obs.Layout, Fds0: obs.Fds0, lay: obs.lay, dir: obs.dir}
 				apDirect(fs, &second, *hang)
 				second.Attempts = 2
 				obs = second
@@ -255,6 +299,10 @@ func ammoprovChild(args []string) {
 				blocked++
 			}
 		}
+		if obs.file != "" {
+			_ = fs.Remove(obs.file)
+		}
+		obs.Fds = apOpenFds()
 		b, err := json.Marshal(obs)
 		if err != nil {
 			panic(err)
@@ -274,10 +322,11 @@ func (o *apObs) stuck() bool {
 }
 
 func apConf(fs afero.Fs, obs *apObs) (interface{}, error) {
-	m, err := apRender(fs, obs.apCase, "/c08")
+	m, file, err := apRender(fs, obs.apCase, obs.dir, obs.lay)
 	if err != nil {
 		return nil, err
 	}
+	obs.file = file
 	if obs.Via == "http+decoder" {
 		// the generic registration `type: http` with an explicit decoder
 		dec := map[string]string{"uri": "uri", "raw": "raw", "uripost": "uripost", "jsonline": "jsonline", "jsonarray": "jsonline"}
@@ -287,6 +336,15 @@ func apConf(fs afero.Fs, obs *apObs) (interface{}, error) {
 		return apYAMLShape(m), nil
 	}
 	return m, nil
+}
+
+// apOpenFds: number of open file descriptors of this process (-1 where /proc is not available)
+func apOpenFds() int {
+	ents, err := os.ReadDir("/proc/self/fd")
+	if err != nil {
+		return -1
+	}
+	return len(ents)
 }
 
 func apClass(err error) string {
